@@ -40,7 +40,7 @@ Record verdict := {
 
 Definition check_case (isSpace isPrint sp_print : N -> bool)
            (chain : list deriv) (r : record) (writes : list bytes) : verdict :=
-  let wf := wf_chain isSpace chain && wf_record isSpace r in
+  let wf := wf_chain isSpace chain && wf_record isSpace r && src_agrees r in
   match writes with
   | [w] =>
     let line_ok := match split_last w with Some (body, l) => (l =? 10) && negb (has_newline body) | None => false end in
